@@ -406,6 +406,8 @@ def run_ast_route(cx):
     for i, e in enumerate(asts):
         b = rm.get("r%d" % i, ["err", "NoReply"])
         cx.count(("xprender", want[i]), b[0] == "ok", "xprender:%s" % outcome(b))
+        if b[:2] == ["err", "NotWf"]:
+            continue        # no canonical text in the Lean renderer's fragment (variables, non-ASCII names, literals with both quotes, ...): counted above
         if b[0] != "ok" or len(b) != 2:
             cx.disagree(COMP, lines[len(texts) + i], ["python-ast", "renderable"], b)
             continue
